@@ -54,6 +54,12 @@ def parseBranchStr (s : List Char) : Option (Nat × Nat) :=
         if d2.isEmpty || !(takeDigits r2).2.isEmpty then none
         else some (digitsVal d1 0, digitsVal d2 0)
 
+/-- `search_text in commit.message` (`ProjectRepo.build_report_rgraph`): the text occurs somewhere in the message,
+taken as it is — blanks, upper/lower case and line breaks count, the empty text occurs in every message -/
+def occursIn (text : List Char) : List Char → Bool
+  | [] => text.isEmpty
+  | c :: cs => text.isPrefixOf (c :: cs) || occursIn text cs
+
 /-- a commit as git shows it: the names of its tags, and major.minor of the version file saved in it when the
 project keeps one (`get_saved_build_number`, project specific) -/
 structure RawCommit (π : Type) where
